@@ -188,7 +188,7 @@ func ruleStateOnlyForVerifiedFrames(c *Ctx, rule string) {
 }
 
 func checkC06(c *Ctx) {
-	c.Explanation = "Decides structural necessary conditions of the week bookkeeping: (S1) state persistence — on every call path from the single-frame decoder to a store into a Handler time field the Handler travels by pointer; no local copy of a Handler (value receiver / by-value parameter / dereferenced copy) has its address handed to a function that mutates Handler fields, so no rollover update is lost; (S2) constellation separation — each converter reads and writes only the Handler fields of its own constellation; (S3) the message-type dispatch tables of the time converter and of the start-of-week lookup map {1074,1077}->GPS, {1084,1087}->Glonass, {1094,1097}->Galileo, {1124,1127}->Beidou and agree with each other (complete type domain); (S4) no Handler state is written on a path that returns a range error; (S5) the week advances only under a strict comparison (previous > current; Glonass day < previous day) and by exactly AddDate(0,0,7); (S6) the offset and limit constants have the required values (-18 s, -4 s, -3 h, 7*86400000-1, 6<<27+86400000-1, day shift 27, 24 h limit with >=), range checks use the required operators, times are week start + timestamp milliseconds, and the start-of-week display is computed after the conversion. (S8) every successful conversion replaces the remembered timestamp (day) of its constellation, unconditionally."
+	c.Explanation = "Decides structural necessary conditions of the week bookkeeping: (S1) state persistence — on every call path from the single-frame decoder to a store into a Handler time field the Handler travels by pointer; no local copy of a Handler (value receiver / by-value parameter / dereferenced copy) has its address handed to a function that mutates Handler fields, so no rollover update is lost; (S2) constellation separation — each converter reads and writes only the Handler fields of its own constellation; (S3) the message-type dispatch tables of the time converter and of the start-of-week lookup map {1074,1077}->GPS, {1084,1087}->Glonass, {1094,1097}->Galileo, {1124,1127}->Beidou and agree with each other (complete type domain); (S4) no Handler state is written on a path that returns a range error; (S5) the week advances only under a strict comparison (previous > current; Glonass day < previous day) and by exactly AddDate(0,0,7); (S6) the offset and limit constants have the required values (-18 s, -4 s, -3 h, 7*86400000-1, 6<<27+86400000-1, day shift 27, 24 h limit with >=), range checks use the required operators, times are week start + timestamp milliseconds, and the start-of-week display is computed after the conversion. (S8) every successful conversion replaces the remembered timestamp (day) of its constellation, unconditionally. (S9) nothing reachable from the handler constructor or the single-frame decoder reads the machine's clock (time.Now/Since/Until): the reported times depend on the start time and the frames only."
 	c.NotDecided = "calendar arithmetic of time.Time; that the structural conditions are sufficient for every interleaving (numerical end-to-end equality is outside static analysis); the initial week derived from the start time (C17)."
 	P := c.P
 	H := P.Named("rtcm/handler", "Handler")
@@ -200,6 +200,12 @@ func checkC06(c *Ctx) {
 	if getMsg == nil {
 		c.Unresolved("C06-anchor", "rtcm/handler.(*Handler).GetMessage")
 		return
+	}
+	// ---- S9 no dependence on the wall clock
+	if hnew := P.Func("rtcm/handler", "New"); hnew != nil {
+		ruleWallClockFree(c, "C06-S9", []*ssa.Function{hnew, getMsg})
+	} else {
+		c.Unresolved("C06-anchor", "rtcm/handler.New")
 	}
 	// ---- S1 lost update
 	mut := paramMutators(P, H)
@@ -1053,4 +1059,48 @@ func dependsOn(v ssa.Value, pred func(ssa.Value) bool) bool {
 		return false
 	}
 	return walk(v, 0)
+}
+
+// ruleWallClockFree: the reported times must be a function of the start time and the frames only, so nothing
+// reachable (inside the module) from the roots may read the machine's clock — neither by calling time.Now /
+// time.Since / time.Until nor by taking one of them as a function value.
+func ruleWallClockFree(c *Ctx, rule string, roots []*ssa.Function) {
+	P := c.P
+	reach := P.ReachableModule(roots)
+	n := 0
+	for fn := range reach {
+		if !P.InModule(fn) {
+			continue
+		}
+		n++
+		bad := token.NoPos
+		what := ""
+		eachInstr(fn, func(ins ssa.Instruction) {
+			for _, op := range ins.Operands(nil) {
+				if op == nil || *op == nil {
+					continue
+				}
+				f, ok := (*op).(*ssa.Function)
+				if !ok {
+					continue
+				}
+				for _, nm := range []string{"Now", "Since", "Until"} {
+					if calleeIs(f, "time", nm) && bad == token.NoPos {
+						bad, what = ins.Pos(), "time."+nm
+						if bad == token.NoPos {
+							bad = fn.Pos()
+						}
+					}
+				}
+			}
+		})
+		if bad != token.NoPos {
+			c.Fail(rule, "wall-clock-free("+P.FnKey(fn)+")", bad, "refuted", what+" is used on the path that turns a start time and a frame into the reported times: the result then depends on when the program runs, not only on the start time and the data")
+		} else {
+			c.OK(rule, "wall-clock-free("+P.FnKey(fn)+")", fn.Pos(), "no use of the machine's clock")
+		}
+	}
+	if n == 0 {
+		c.Fail(rule, "wall-clock-free", token.NoPos, "unresolved", "no functions reachable from the handler constructor and decoder")
+	}
 }
